@@ -118,33 +118,42 @@ class TeeStoreLogger:
         self.acked = True
 
 
-def make_config(path, k, rewriter_name, flt, logger_box, faults):
+def make_config(path, k, rewriter_name, flt, logger_box, faults, sample_rate=None):
+    """A Config whose answers are read from a mutable `state` dict, so that ONE Config object can be
+    reused across sessions whose settings differ (as a long-lived deployment would)."""
     from monkeytype.config import Config
     from monkeytype.db.base import CallTraceStoreLogger
     from monkeytype.db.sqlite import SQLiteStore
+
+    state = {"k": k, "faults": faults, "box": logger_box, "rate": sample_rate, "flt": flt, "rewriter": rewriter_name}
 
     class SimConfig(Config):
         def trace_store(self):
             return SQLiteStore.make_store(path)
 
         def trace_logger(self):
-            lg = TeeStoreLogger(CallTraceStoreLogger(self.trace_store()), faults)
-            logger_box.append(lg)
+            lg = TeeStoreLogger(CallTraceStoreLogger(self.trace_store()), state["faults"])
+            state["box"].append(lg)
             return lg
 
         def code_filter(self):
-            return flt
+            return state["flt"]
+
+        def sample_rate(self):
+            return state["rate"]
 
         def max_typed_dict_size(self):
-            return k
+            return state["k"]
 
         def type_rewriter(self):
-            return make_rewriter(rewriter_name)
+            return make_rewriter(state["rewriter"])
 
         def query_limit(self):
             return 100000
 
-    return SimConfig()
+    cfg = SimConfig()
+    cfg.state = state
+    return cfg
 
 
 class Session:
@@ -163,6 +172,7 @@ def run_sessions(plan, lp, workdir):
     real_dt = S.datetime
     S.datetime = FakeDatetimeModule(clock)
     out = []
+    cfg = None
     try:
         for si, ses in enumerate(plan["sessions"]):
             clock.days = ses.get("clock_days", 0)
@@ -173,7 +183,10 @@ def run_sessions(plan, lp, workdir):
             top = mat.script(ses["script"])
             flt, admitted = c02.make_filter({"filter": "fixture"}, lp)
             box = []
-            cfg = make_config(path, ses["k"], plan["rewriter"], flt, box, ses.get("faults"))
+            if cfg is None:
+                cfg = make_config(path, ses["k"], plan["rewriter"], flt, box, ses.get("faults"))
+            else:
+                cfg.state.update({"k": ses["k"], "faults": ses.get("faults"), "box": box, "flt": flt})
             s = Session()
             s.index = si
             s.k = ses["k"]
